@@ -46,10 +46,10 @@ CHECKS = {
    text="Coq theorems on the definitional semantics: env.NAME is the variable's value as a string; an unset name is an error in strict mode and NULL otherwise; two environments that both lack NAME give the same outcome (nothing of the other variables enters); env cannot be bound by let nor as a parameter; a tuple field named env is that field. C01 carries these to the compiled form. Tied to the real process: random environments (0..20 variables, arbitrary Unicode values, a planted secret) handed to `ucg` exactly, reads of set and unset names in strict and --no-strict mode, stderr searched for values of unrelated variables, artifacts compared",
    note="how the OS passes the environment is outside the model; diagnostics are text of the implementation, checked by search not by theorem",
    technique="Coq proof (evaluation of the env selector) + process-level correspondence"),
- "C19": dict(category="exploration",
-   text="partial: every helper (lists.len/reverse/head/tail/enumerate/zip/slice/str_join, tuples.fields/values/iter/strip_nulls/has_fields, strings.len/chars/split_on/split_at/substr/parse_int, functional.maybe, schema.shaped/any/all/base_type_of) is called through import \"std/...\" in built files on seeded random lists, tuples, ASCII and Unicode strings, separators of length 1..3 and boundary index pairs, and the result read from `out yaml` is compared with a python reference definition; involution of reverse, zip truncation, inclusive slices and split_on/str_join round trip are among the cases. Coq theorems about the ASTs of std/*.ucg (regenerated by the real parser, gen/StdLib.v) under the definitional semantics are added for the fold-shaped helpers as they are proved; the level is raised to proof then",
-   note="the helpers that use import/mod.pkg (zip, slice, has_fields, the string helpers, schema.*) are outside the definitional semantics (imports answer Unsup) and stay test-only",
-   technique="Coq proof for fold-shaped helpers over generated ASTs (in progress) + reference-function correspondence through the ucg binary"),
+ "C19": dict(category="proof",
+   text="Coq theorems about the ASTs of std/*.ucg, regenerated by the real parser on every run (gen/StdLib.v), under the definitional semantics: for ALL argument values lists.len/reverse/head/tail/enumerate/str_join, tuples.fields/values/iter/strip_nulls and schema.base_type_of evaluate to their reference functions (length, rev, first element, rest, indexed pairs, separator-joined renderings, names, values, pairs, non-NULL fields, type name), reverse is an involution, head + tail is the list, and the library files load in every environment and mode; one refutation (enumerate computes the index after the last element, which may overflow). Every helper, including those outside the semantics (zip, slice, has_fields, strings.*, functional.maybe, schema.shaped/any/all, the ops wrappers), is called through import \"std/...\" in built files on seeded random inputs and compared with python reference definitions",
+   note="helpers that use import/mod.pkg are outside the definitional semantics (imports answer Unsup) and are decided by the reference comparison only; len/head/tail need the length to fit an i64, strip_nulls needs no function-valued fields (equality of closures is Unsup in the semantics); one listed known finding (enumerate at the i64 edge)",
+   technique="Coq proof (fold invariants over reduce, fuel monotonicity; terms regenerated from std/*.ucg by the real parser) + reference-function correspondence through the ucg binary"),
  "C16": dict(category="proof",
    text="Coq state machine of one invocation - one Environment with opcode cache, value cache, shape cache and out locks threaded through the file list - proved by simulation to give every file the status, value and artifacts of a fresh process, for every project (cyclic, missing, failing, two-out files included), every order, repetition and doubled file list, with a lemma refuting it for the per-invocation out lock of the original code. Tied to the real binary: the extracted machine is run on every invocation below (per-file status, exit status, evaluation sequence by TRACE markers, artifacts written) and generated projects of 2..6 files (entries with out statements in five formats, shared libraries, files both built and imported, files failing at parse/type-check/run time before or after their out statement, paths spelled differently, a file named twice) built alone, in every order up to 4 files and random orders beyond, in every 2-file sub-batch, each invocation run twice, and by `ucg build -r .`; per-file status, exit status and every artifact's bytes must equal the stand-alone builds",
    note="files are abstracted in the model to their imports, number of out statements and whether they fail; diagnostic text is not compared (not part of the property); concurrent modification of files is outside",
